@@ -36,7 +36,8 @@ def main(argv):
             mod = __import__(MODULES[doc["property"]])
             rp = dict(doc["replay"])
             rp["class"] = doc["class"]
-            ok = mod.replay(rp)
+            import engine
+            ok = engine.replay_document(mod, rp)
             if ok:
                 print("VIOLATION property=%s replay=%s" % (doc["property"], argv[1]))
                 print("  class=%s reproduced" % doc["class"])
